@@ -56,6 +56,32 @@ def _member_type(prog, mod, ty, n):
     parts = split_top(inner)
     return parts[n] if n < len(parts) else '?'
 
+def const_gep_steps(prog, mod, cg):
+    """constant GEP (basety, '@g', [idx...]) -> path steps with field names"""
+    ty, base, idx = cg
+    steps = []
+    cur = ty
+    for i in idx[1:]:
+        c = cname_of(cur)
+        if c is not None and isinstance(i, int):
+            names = field_names(prog, cur)
+            fname = names[i] if names and i < len(names) else f'#{i}'
+            steps.append(('field', c, fname))
+            cur = _member_type(prog, mod, cur, i)
+        else:
+            steps.append(('index', str(i)))
+            m = re.match(r'\[\d+ x (.*)\]$', cur.strip())
+            cur = m.group(1) if m else '?'
+    return steps
+
+def const_gep_suffix(prog, mod, cg):
+    s = ''
+    if cg[2] and cg[2][0] != 0:
+        s += f'+{cg[2][0]}'
+    for st in const_gep_steps(prog, mod, cg):
+        s += ('.' + st[2]) if st[0] == 'field' else f'[{st[1]}]'
+    return s
+
 class Canon:
     """canonical expression strings; env maps phi results to chosen incoming expressions (for path walks)"""
     def __init__(self, prog, fn):
@@ -68,7 +94,7 @@ class Canon:
             if isinstance(v, str) and v.startswith('getelementptr'):
                 cg = const_gep(v)
                 if cg:
-                    return f'{cg[1]}{cg[2]}'
+                    return cg[1] + const_gep_suffix(self.prog, self.fn.mod, cg)
             return self.val(v, env)
         if d.op == 'getelementptr':
             base = self.addr(d.ops[0], env)
@@ -185,7 +211,7 @@ def access_path(prog, fn, ptr):
             if isinstance(v, str) and v.startswith('getelementptr'):
                 cg = const_gep(v)
                 if cg:
-                    return cg[1], [('constidx', cg[2])] + steps
+                    return cg[1], const_gep_steps(prog, fn.mod, cg) + steps
             if isinstance(v, str) and v.startswith('bitcast'):
                 t = const_bitcast_target(v)
                 if t:
